@@ -47,6 +47,9 @@ type Spec struct {
 	// replaced, and the replay binary is built with -modfile pointing at that copy (the symbolic
 	// run uses "models" for the same callees). Files in the module cache cannot be overlaid.
 	NativeModulePatch map[string]map[string]string `json:"native_module_patch"`
+	// InstrPkgs: further packages (import paths) whose synchronisation operations are scheduling
+	// points of forced-schedule replays, like those of Package (e.g. queue for a harness in http).
+	InstrPkgs []string `json:"instr_pkgs"`
 	// NativeHooks: see nativehooks.go (native replay build only).
 	NativeHooks *NativeHooks `json:"native_hooks"`
 }
@@ -230,7 +233,19 @@ func buildOverlay(spec *Spec, forTest bool) (map[string][]byte, error) {
 		if spec.Synctest {
 			sb.WriteString("\t\"testing/synctest\"\n")
 		}
-		sb.WriteString(")\n\nfunc TestVerifReplay(t *testing.T) {\n\tentries := map[string]func(){\n")
+		instrMore := spec.Synctest && curProgram != nil && os.Getenv("VERIF_NO_INSTRUMENT") == ""
+		if instrMore {
+			for i, ip := range spec.InstrPkgs {
+				fmt.Fprintf(&sb, "\tverifinstr%d %q\n", i, ip)
+			}
+		}
+		sb.WriteString(")\n\nfunc TestVerifReplay(t *testing.T) {\n")
+		if instrMore {
+			for i := range spec.InstrPkgs {
+				fmt.Fprintf(&sb, "\tverifinstr%d.VerifSPHook, verifinstr%d.VerifSpawnHook, verifinstr%d.VerifEnterHook = verifSP, verifSpawn, verifEnter\n", i, i, i)
+			}
+		}
+		sb.WriteString("\tentries := map[string]func(){\n")
 		seenEntry := map[string]bool{}
 		for _, e := range spec.Entries {
 			if seenEntry[e.Name] {
@@ -256,6 +271,20 @@ func buildOverlay(spec *Spec, forTest bool) (map[string][]byte, error) {
 				}
 			} else {
 				fmt.Fprintln(os.Stderr, "instrumentation failed (replaying without forced schedules):", err)
+			}
+			for _, ip := range spec.InstrPkgs {
+				name, dir := curProgram.PackageNameDir(ip)
+				if name == "" {
+					return nil, fmt.Errorf("instr_pkgs: package %s is not loaded", ip)
+				}
+				files, err := curProgram.InstrumentPackage(ip, nil)
+				if err != nil {
+					return nil, fmt.Errorf("instr_pkgs: %s: %v", ip, err)
+				}
+				for name, content := range files {
+					ov[name] = content
+				}
+				ov[filepath.Join(dir, "zz_verif_sphooks.go")] = sym.HookFile(name)
 			}
 		}
 		if spec.NativeHooks != nil {
@@ -587,7 +616,7 @@ func checkSpec(hdir, prop, tier, only string, verbose bool, seed int64, acc *acc
 		}
 		cfg := sym.Config{Unwind: e.Unwind, MaxPaths: e.MaxPaths, MaxPreempt: e.MaxPreempt, SchedFirst: e.SchedFirst, Solver: spec.Solver, InitPkgs: spec.Init,
 			Skip: set(spec.Skip), Havoc: set(spec.Havoc), Models: spec.Models, Seed: seed, Tier: tierN, MapOrderChoice: e.MapOrder,
-			TimeoutMS: e.TimeoutMS, MaxSymAlloc: e.MaxSymAlloc, FoldRegex: e.FoldRegex, WitnessModels: true, Workers: 12, InstrPkg: spec.Package}
+			TimeoutMS: e.TimeoutMS, MaxSymAlloc: e.MaxSymAlloc, FoldRegex: e.FoldRegex, WitnessModels: true, Workers: 12, InstrPkg: spec.Package, InstrMore: set(spec.InstrPkgs)}
 		if e.Solver != "" {
 			cfg.Solver = e.Solver
 		}
